@@ -3,7 +3,8 @@ CONSTANTS
   Mode = "all"
   NN = 3
   PP = 1
-  Samples = 0
+  Samples = 1
+  Chains = 1
 INVARIANT Theorems
 CONSTRAINT Emit
 CHECK_DEADLOCK FALSE
